@@ -57,6 +57,11 @@ REVERTS = [
     ('F58-image-header-unknown-version', 'd1a0ebc', {'C05': ['S05-14:image-header-length-formula']}),
     ('F59-cleartext-cr-blank-lf', 'f959d6a', {'C16': ['S16-1:trimmed-cr-kept-as-content']}),
     ('F23-boolean-subpackets', '1b5ba7a', {'C05': ['S05-8:lossless-bool'], 'C02': ['S05-8:lossless-bool']}),
+    ('F60-key-flags-reserved-bits', '28af7ff', {'C05': ['S05-8:bitfield:parse-keeps-every-bit'], 'C02': ['S05-8:bitfield:parse-keeps-every-bit']}),
+    ('F61-key-flags-set-on-empty', '895ddd8', {'C05': ['S05-15:gate-set-by-mutators:KeyFlags']}),
+    ('F62-inline-signature-type', '631e2fe', {'C02': ['S02-3:inline-type'], 'C11': ['S02-3:inline-type']}),
+    ('F65-v6-unsupported-curve-overread', '7bdcc4b', {'C05': ['S05-16:total-minus-prefix:types::params::public::ecdsa']}),
+    ('F66-jpeg-header-length', 'a5c47b1', {'C05': ['S05-14:constant-length-variant-checked']}),
 ]
 tests = [dict(name='revert:' + n, kind='revert-fix', commit=c, expect=e) for n, c, e in REVERTS]
 try:
